@@ -26,6 +26,7 @@ RULE = ("one run = 1-3 simulated terminals, each with a tape-generated well-form
         "with the generating description; distinct = distinct images x modes x busy "
         "patterns (event-log digest); non-trivial = at least 3 categories or 3 PDO entries")
 RULE += '; since the 4th session identity fields also sit at their 32-bit boundaries and the EEPROM interface may still be busy with an abandoned command when the read starts'
+RULE += '; also bring-ups given up once or twice at any moment and repeated with the same object, and a read width that changes between two reads'
 COMPONENTS = {
     "real": ["ebpfcat.ethercat.Terminal.initialize/apply_eeprom/read_eeprom/"
              "_eeprom_read_one/parse_sync_managers/parse_pdos", "EtherCat.eeprom_read",
